@@ -109,6 +109,51 @@ def run_corpus(ctx, P):
     return dis
 
 
+def long_stream(ctx, P, rng):
+    """LONG inputs (hundreds of characters: pumped sentences, long runs over the grammar's alphabet) on generated grammars
+    without recursion: the implementation's end set against the reference set semantics (`refends`, which the engine
+    model equals by theorem C11.ends_are_reference; the model engine itself builds every tree and is too slow here).
+    Returns (evaluations, skipped as slow, [disagreement records])."""
+    gg = G.GrammarGen(rng, recursion=0.0, flags=0.1, excl=0.1, prose=0.0)
+    blocks, items = [], []
+    slow = 0
+    for _ in range(ctx.budget(30, 800)):
+        gr = gg.grammar(depth=2)
+        try:
+            base = G.derive(rng, gr, gr[0][1])
+        except (G.Dead, RecursionError):
+            base = ""
+        alph = sorted(G.alphabet_of(gr) or "ab")
+        srcs = []
+        if base:
+            k = rng.randrange(len(base))
+            srcs.append(base[:k] + base[k] * rng.randint(260, 420) + base[k:])
+            srcs.append(base[:k] + base[k:k + 2] * rng.randint(130, 210) + base[k:])
+        srcs.append("".join(rng.choice(alph[:3]) for _ in range(rng.randint(260, 420))))
+        cls, rules = G.build(P, gr)
+        lines = G.grammar_wire(gr)
+        exp = []
+        for src in srcs:
+            got = ec.with_budget(ec.CASE_BUDGET_S, lambda: lib.py_lparse(P, rules[0], src, 0, full=False), "slow")
+            if got == "slow":
+                slow += 1
+                break
+            lines.append("refends 0 0 " + lib.cps(src))
+            exp.append((src, got))
+        blocks.append(lines)
+        items.append((gr, lines[:len(lines) - len(exp)], exp))
+    outs = lib.run_driver_parallel(blocks)
+    bad = []
+    n = 0
+    for (gr, wire, exp), out in zip(items, outs):
+        for (src, got), ref in zip(exp, out[1:]):
+            n += 1
+            if lib.ends_of(got) != lib.ends_of(ref):
+                bad.append({"grammar": gr, "wire": wire, "source": [ord(c) for c in src], "source_repr": repr(src[:40]) + "... (%d characters)" % len(src),
+                            "offset": 0, "query": "ends", "implementation": got, "model": ref, "reference": ref, "long": True})
+    return n, slow, bad
+
+
 def key_of(d):
     g = d["grammar"]
     return "engine:" + lib.digest([g, d["source"], d["offset"]])
@@ -141,6 +186,14 @@ def run(ctx):
                 % (d["source_repr"], d["offset"], d["implementation"], d["reference"]),
                 {"kind": "engine", "mode": MODE, **d}, key=key_of(d))
 
+    # long inputs
+    n_long, slow_long, bad_long = long_stream(ctx, P, random.Random(ctx.seed + 77))
+    ndis += len(bad_long)
+    for d in bad_long[:2]:
+        found = True
+        ctx.report("end set differs from RFC 5234 semantics on a long input: source=%s implementation=%r reference=%r"
+                   % (d["source_repr"], d["implementation"][:80], d["reference"][:80]), {"kind": "engine", "mode": MODE, **d}, key=key_of(d))
+
     # exhaustive code point sweep for case-insensitive literals
     letters = "ks" if ctx.quick else "abcdefghijklmnopqrstuvwxyzKSZ"
     bad, errs, nsweep = codepoint_sweep(ctx, letters)
@@ -156,11 +209,12 @@ def run(ctx):
 
     st = info["stats"]
     ctx.coverage.update({
-        "evaluations": st["cases"] + nsweep + len(CORPUS),
+        "evaluations": st["cases"] + nsweep + len(CORPUS) + n_long, "long_input_requests": n_long, "long_inputs_skipped_as_slow": slow_long,
         "distinct_nontrivial": st["distinct_nontrivial"],
         "rule": "generated grammars (all operators, flags, exclusions, guarded recursion) x strings derived from the grammar, "
                 "mutated, or random over its boundary alphabet x every offset; non-trivial = matched at >= 2 ends, or "
-                "failed before end of input; distinct by (grammar, source, offset). Plus exhaustive code point sweep.",
+                "failed before end of input; distinct by (grammar, source, offset). Plus inputs of 260-420 characters (pumped sentences, long runs) on recursion-free grammars against the "
+                "reference set semantics. Plus exhaustive code point sweep.",
         "samples": info["samples"],
         "engine_stats": st,
         "operator_mix": info["operator_mix"],
